@@ -208,11 +208,12 @@ def _ticks(ts_us, tsresol, tsoffset):
     return int(ticks)
 
 
-def pcapng_multi(items, ifaces, assign, le=True, sections=1, late_idb=False, obsolete_pb=False):
+def pcapng_multi(items, ifaces, assign, le=True, sections=1, late_idb=False, obsolete_pb=False, linktypes=None):
     """The same packet list as a capture of several interfaces (what dumpcap -i a -i b or mergecap write): ifaces = [(if_tsresol or None, if_tsoffset or None), ...],
     assign(n) -> interface index of the n-th packet.  Every packet's timestamp is written in the units of ITS interface (pcapng 4.2: resolution and offset are
     per-interface options).  sections > 1: the list is split into that many sections of one file, each with its own section header and interface descriptions (the
-    interface list rotated by one from section to section, ids start at 0 again); late_idb: an interface description is written just in front of the first packet
+    interface list rotated by one from section to section, ids start at 0 again); linktypes: link type per interface (default Ethernet; an interface of another
+    type must not be assigned packets here - every frame of the list is an Ethernet frame - it stands for an idle tun/any/loopback device captured alongside); late_idb: an interface description is written just in front of the first packet
     of the section that refers to it instead of at the top of the section (allowed: 'before any block that refers to it')."""
     e = "<" if le else ">"
     out = []
@@ -226,7 +227,7 @@ def pcapng_multi(items, ifaces, assign, le=True, sections=1, late_idb=False, obs
         def idb(k):
             res, off = ifaces[k]
             opts = (_opt(9, bytes([res]), e) if res is not None else b"") + (_opt(14, struct.pack(e + "q", off), e) if off is not None else b"")
-            return _block(1, struct.pack(e + "HHI", 1, 0, 262144) + _opt(2, b"if%d" % k, e) + opts + _opt(0, b"", e), e)
+            return _block(1, struct.pack(e + "HHI", linktypes[k] if linktypes else 1, 0, 262144) + _opt(2, b"if%d" % k, e) + opts + _opt(0, b"", e), e)
         described = 0
         if not late_idb:
             out += [idb(k) for k in order]
